@@ -354,8 +354,9 @@ class CombineDisjClausesMacro(Macro):
         l_args, r_args, goal_args = args
         prev = prevs[0]
 
-        # If associativity suffices, do so
-        if l_args + r_args == goal_args:
+        # If associativity suffices, do so (with a single disjunct on the left
+        # there is nothing to reassociate: the general case below handles it)
+        if l_args + r_args == goal_args and len(l_args) > 1:
             eq_pt = ProofTerm.reflexive(Or(l_args[-1], Or(*r_args)))
             for l_arg in reversed(l_args[:-1]):
                 eq_pt = ProofTerm.reflexive(disj(l_arg)).combination(eq_pt)
